@@ -308,6 +308,8 @@ func checkC18(c *Ctx) {
 		c.Check(okOnce, "C18.3", "NextScenario: remaining-- exactly once per returned scenario", p.FuncPos(gen),
 			"every success return is preceded by the single decrement, which cannot execute twice in one call", "decrement sites: "+itoa(len(dec))+" or a success path bypasses / repeats it")
 		c.checkGuard("C18.3", guards["Generator"])
+		// (scenarios are written by concurrent workers: separator and scenario must go out as one unit)
+		c.checkGuard("C18.3", guards["JSONWriter"])
 		// C18.8 the odometer is advanced only by NextScenario, starting from the all-zero position: the termination
 		// rule ("the most significant digit wrapped to 0") is a full cycle only then; the shuffle permutes the
 		// combinations through separate offsets
